@@ -277,7 +277,6 @@ package jsonata
 //@   props C01 C09 C10
 //@   precise-append
 //@   requires s != nil
-//@   requires [C10:items-are-values-not-sequences] !typeis(v, "*sequence")
 //@   ensures len(s.values) == old(len(s.values)) + 1 && s.values[old(len(s.values))] == v && s.keepSingletons == old(s.keepSingletons)
 //@   ensures forall k in [0, old(len(s.values))): s.values[k] == old(s.values[k])
 //@   ensures arr(s.values) == old(arr(s.values)) || fresh(s.values)
@@ -457,7 +456,7 @@ package jsonata
 //@   requires f != nil && len(argv) >= len(f.params) && argsUsable(argv)
 //@   ensures [C12:not-variadic-unchanged] !old(lastIsVariadic(f)) ==> result == argv
 //@   ensures [C12:variadic-tail-collected] old(lastIsVariadic(f)) ==> (len(result) == old(len(f.params)) && kind(result[old(len(f.params)) - 1]) == 23 && rvlen(result[old(len(f.params)) - 1]) == len(argv) - old(len(f.params)) + 1)
-//@   loop 0 invariant 0 <= i && i <= n && n == len(argv) - paramCount + 1 && paramCount == len(f.params) && kind(vars) == 23 && rvlen(vars) == n && canif(vars)
+//@   loop 0 invariant 0 <= i && i <= n && n == len(argv) - paramCount + 1 && paramCount == len(f.params) && kind(vars) == 23 && rvlen(vars) == n && canif(vars) && argsUsable(argv)
 
 //@ func (*lambdaCallable).validateArgs
 //@   props C12 C09
@@ -706,6 +705,7 @@ package jsonata
 //@   ensures r1 == nil ==> isSeq(r0)
 //@   assigns heap
 //@   atcall[C01:field-of-every-member] evalName#0 requires callee_node == node && callee_data == at(data, i)
+//@   atcall[C10:items-are-values-not-sequences] sequence.Append#0 requires !typeis(callee_v, "*sequence")
 //@   loop 0 invariant 0 <= i && i <= n && n == rvlen(data) && results != nil
 
 // --- C01 / C09: wildcard and descendant steps ----------------------------------------------------------------------------
